@@ -17,7 +17,7 @@ NEEDS_MODEL = True
 LEVEL = "exploration"
 N = {"quick": 2000, "thorough": 60000}
 CLASSES = ["plain", "shape", "occupancy", "flatten", "affine", "cascade", "flatten3", "shape",
-           "double-flatten", "cascade", "flatten-lookup", "rewrite", "affine-cascade"]
+           "double-flatten", "cascade", "flatten-lookup", "rewrite", "affine-cascade", "dynflatten2"]
 TECHNIQUE = ("runtime monitoring: namespace / rank-id / ownership monitors on instrumented "
              "executions of emitted programs on the reference model")
 
